@@ -10,7 +10,65 @@ use subject::*;
 
 const PROP: &str = "C01";
 
-fn jobs() -> Vec<(Op, Vec<Vec<f64>>)> {
+/// arguments of large and of small magnitude (all exactly representable in f32) at which the
+/// function value and every contributing term are still far inside the range of the float width:
+/// premature overflow (e.g. cosh from sqrt(sinh^2 + 1)), amplified argument errors (exp2 as
+/// exp(x ln 2)) and cancellation next to zero (ln_1p as ln(1 + x)) only show here
+fn range_points(op: Op, prec: i32) -> Vec<f64> {
+    use Op::*;
+    let wide = prec == 53;
+    // not dyadic: 1 + x must not be exact; small enough for cancellation to show, large enough for
+    // the fifth power of 1/x to stay inside f32
+    let tiny = [1.2345678e-6, -3.3e-7];
+    let mut g: Vec<f64> = Vec::new();
+    match op {
+        Exp | ExpM1 => {
+            g.extend([70.0, -70.0]);
+            if wide {
+                g.extend([690.0, -690.0]);
+            }
+        }
+        Exp2 => {
+            g.extend([100.0, -100.0]);
+            if wide {
+                g.extend([1000.0, -1000.0]);
+            }
+        }
+        Sinh | Cosh => {
+            g.extend([50.0, -70.0]);
+            if wide {
+                g.extend([400.0, -690.0]);
+            }
+        }
+        Tanh => {
+            g.extend([20.0, -50.0]);
+            if wide {
+                g.extend([400.0]);
+            }
+        }
+        Sin | Cos | SinCosS | SinCosC | Tan => g.extend([100.0, -1000.0]),
+        Atan | Asinh | Cbrt => g.extend([1048576.0, -1048576.0]),
+        Recip => g.extend([1048576.0, -1048576.0]),
+        Sqrt | Ln | Log(_) | Log2 | Log10 => g.extend([1048576.0, 1.2345678e-6]),
+        Ln1p | Acosh => g.extend([1048576.0]),
+        _ => {}
+    }
+    if matches!(op, Exp | Exp2 | ExpM1 | Sin | Cos | SinCosS | SinCosC | Tan | Atan | Sinh | Cosh | Tanh | Asinh | Ln1p | Asin | Acos | Atanh | Cbrt | Recip) {
+        g.extend(tiny);
+    }
+    g
+}
+
+fn jobs(prec: i32) -> Vec<(Op, Vec<Vec<f64>>)> {
+    let un = |g: &[f64]| g.iter().map(|x| vec![*x]).collect::<Vec<_>>();
+    let mut v: Vec<(Op, Vec<Vec<f64>>)> = jobs_base();
+    for (op, g) in v.iter_mut() {
+        g.extend(un(&range_points(*op, prec)));
+    }
+    v
+}
+
+fn jobs_base() -> Vec<(Op, Vec<Vec<f64>>)> {
     let un = |g: &[f64]| g.iter().map(|x| vec![*x]).collect::<Vec<_>>();
     let mut v: Vec<(Op, Vec<Vec<f64>>)> = Vec::new();
     for op in [Op::Exp, Op::Exp2, Op::ExpM1, Op::Sin, Op::Cos, Op::SinCosS, Op::SinCosC, Op::Tan, Op::Atan, Op::Sinh, Op::Cosh, Op::Tanh, Op::Asinh, Op::Cbrt, Op::Recip, Op::Abs, Op::Signum] {
@@ -62,7 +120,7 @@ impl<'a> Visitor for Enumerate<'a> {
         let budget: usize = if self.mode == Mode::Quick { 3_000 } else { 60_000 };
         let c = cfg();
         let mut list: Vec<(Op, Vec<f64>)> = Vec::new();
-        for (op, pts) in jobs() {
+        for (op, pts) in jobs(F::PREC) {
             for re in pts {
                 list.push((op, re));
             }
@@ -89,7 +147,7 @@ fn main() {
     whole_universe(tier, &mut e);
     let axes = std::mem::take(&mut e.axes);
     let reduced = e.reduced;
-    let kap: Vec<Value> = jobs().iter().map(|(op, _)| json!({"op": op.name(), "kappa": kappa(*op)})).collect();
+    let kap: Vec<Value> = jobs(53).iter().map(|(op, _)| json!({"op": op.name(), "kappa": kappa(*op)})).collect();
     let rep = Report {
         property: PROP,
         mode: cli.mode,
